@@ -1,7 +1,8 @@
 /* C14 -- independent codec instances do not interfere when used concurrently.
  * One case = one forked child process (so first-use paths -- CPU detection, static tables -- race in every case): T threads are
  * released together by a barrier with no prior libopus call in the process, each creating, driving and destroying its own objects
- * (encoder / hostile-input decoder / encoder+decoder pair / surround multistream pair / repacketizer / projection pair) with
+ * (encoder / hostile-input decoder / encoder+decoder pair / surround multistream pair / repacketizer / projection pair / original and
+ * memcpy clone of an encoder driven by two threads) with
  * yields and sleeps injected at API boundaries and random CPU pinning.  Oracles: (1) ThreadSanitizer (tsan flavour) must report
  * nothing; (2) every thread's output digest must equal the digest of the same workload run serially afterwards.
  * Monitor state is thread-private; the only shared word is a relaxed atomic sequence counter (no happens-before edges) used to
@@ -16,7 +17,7 @@
 
 #define MAXT 32
 #define MAXEV 400
-typedef struct { int idx, role; uint64_t seed; int jitter; uint64_t digest; long ops; int failed; char fail[160]; unsigned ev[MAXEV]; int nev; } tctx;
+typedef struct { int idx, role, pair; uint64_t seed; int jitter; uint64_t digest; long ops; int failed; char fail[160]; unsigned ev[MAXEV]; int nev; } tctx;
 static unsigned seqctr;   /* relaxed atomic */
 static pthread_barrier_t bar;
 
@@ -54,16 +55,37 @@ static void work_projection(tctx *t,vc_rng *r){ int err; int Fs=VC_PICK(r,vk_rat
   for(int k=0;k<5;k++){ vs_fill(&g,in,fs); jitter(t,r); mark(t); int len=opus_projection_encode_float(pe,in,fs,pk,12000); if(len<=0){ FAIL(t,"projection encode %d",len); break; } dg(t,pk,len); mark(t); int rc=opus_projection_decode_float(pd,pk,len,out,fs,0); dgi(t,rc); if(rc>0) dg(t,out,sizeof(float)*rc*ch); t->ops++; }
   mark(t); opus_projection_encoder_destroy(pe); opus_projection_decoder_destroy(pd); free(mt); free(in); free(out); free(pk); }
 
+/* roles 6/7: a state copied with memcpy is an independent object.  Thread A creates an encoder (single-stream or surround), codes two frames, clones it with memcpy(get_size) and hands the
+   clone to thread B (mutex + condition variable: a proper happens-before edge); from then on A drives the original and B the clone, each with its own input, concurrently. */
+static struct { pthread_mutex_t m; pthread_cond_t c; int ready; void *clone; int kind,Fs,ch,S,C; } mbox[MAXT];
+static void mbox_put(int p,void *clone,int kind,int Fs,int ch){ pthread_mutex_lock(&mbox[p].m); mbox[p].clone=clone; mbox[p].kind=kind; mbox[p].Fs=Fs; mbox[p].ch=ch; mbox[p].ready=1; pthread_cond_broadcast(&mbox[p].c); pthread_mutex_unlock(&mbox[p].m); }
+static int clone_encode(tctx *t,vc_rng *r,void *obj,int kind,int Fs,int ch,vc_siggen *g,float *in,unsigned char *pk,int fs){ vs_fill(g,in,fs); jitter(t,r); mark(t); int len= kind?opus_multistream_encode_float((OpusMSEncoder*)obj,in,fs,pk,8000):opus_encode_float((OpusEncoder*)obj,in,fs,pk,8000); dgi(t,len); if(len>0) dg(t,pk,len); t->ops++; return len; }
+static void work_clone_producer(tctx *t,vc_rng *r){ int err; int kind=vc_below(r,2); int Fs=VC_PICK(r,vk_rates); int ch= kind?vc_range(r,3,8):1+(int)vc_below(r,2); int S,C; unsigned char map[255]; void *obj; int sz; mark(t);
+  if(kind){ obj=opus_multistream_surround_encoder_create(Fs,ch,1,&S,&C,map,OPUS_APPLICATION_AUDIO,&err); sz=opus_multistream_surround_encoder_get_size(ch,1); } else { obj=opus_encoder_create(Fs,ch,VC_PICK(r,vk_apps),&err); sz=opus_encoder_get_size(ch); }
+  if(!obj){ FAIL(t,"clone producer create %d",err); mbox_put(t->pair,NULL,kind,Fs,ch); return; }
+  if(kind) opus_multistream_encoder_ctl((OpusMSEncoder*)obj,OPUS_SET_BITRATE(vc_range(r,24000,64000)*ch)); else opus_encoder_ctl((OpusEncoder*)obj,OPUS_SET_BITRATE(vc_range(r,12000,96000)*ch));
+  vc_siggen g; vs_init(&g,vc_below(r,VS_NFINITE),Fs,ch,0.5f,vc_next(r)); float *in=(float*)malloc(sizeof(float)*1920*ch); unsigned char *pk=(unsigned char*)malloc(8000); int fs=vk_frame_samples(Fs,vc_range(r,1,3));
+  for(int k=0;k<2;k++) clone_encode(t,r,obj,kind,Fs,ch,&g,in,pk,fs);
+  void *clone=malloc(sz); memcpy(clone,obj,sz); mbox_put(t->pair,clone,kind,Fs,ch);
+  int n=vc_range(r,6,14); for(int k=0;k<n;k++) if(clone_encode(t,r,obj,kind,Fs,ch,&g,in,pk,fs)<=0){ FAIL(t,"original encode"); break; }
+  mark(t); if(kind) opus_multistream_encoder_destroy((OpusMSEncoder*)obj); else opus_encoder_destroy((OpusEncoder*)obj); free(in); free(pk); }
+static void work_clone_consumer(tctx *t,vc_rng *r){ int p=t->pair; pthread_mutex_lock(&mbox[p].m); while(!mbox[p].ready) pthread_cond_wait(&mbox[p].c,&mbox[p].m); void *obj=mbox[p].clone; int kind=mbox[p].kind, Fs=mbox[p].Fs, ch=mbox[p].ch; pthread_mutex_unlock(&mbox[p].m); if(!obj) return;
+  vc_siggen g; vs_init(&g,vc_below(r,VS_NFINITE),Fs,ch,0.5f,vc_next(r)); float *in=(float*)malloc(sizeof(float)*1920*ch); unsigned char *pk=(unsigned char*)malloc(8000); int fs=vk_frame_samples(Fs,vc_range(r,1,3));
+  int n=vc_range(r,6,14); for(int k=0;k<n;k++) if(clone_encode(t,r,obj,kind,Fs,ch,&g,in,pk,fs)<=0){ FAIL(t,"clone encode"); break; }
+  mark(t); free(obj); free(in); free(pk); }
+
 static void run_work(tctx *t){ vc_rng r; vc_rng_seed(&r,t->seed); t->digest=0x1234; t->ops=0; t->nev=0; t->failed=0;
-  switch(t->role){ case 0: work_encoder(t,&r); break; case 1: work_hostile_decoder(t,&r); break; case 2: work_pair(t,&r); break; case 3: work_ms(t,&r); break; case 4: work_repack(t,&r); break; default: work_projection(t,&r); break; } }
+  switch(t->role){ case 0: work_encoder(t,&r); break; case 1: work_hostile_decoder(t,&r); break; case 2: work_pair(t,&r); break; case 3: work_ms(t,&r); break; case 4: work_repack(t,&r); break; case 6: work_clone_producer(t,&r); break; case 7: work_clone_consumer(t,&r); break; default: work_projection(t,&r); break; } }
 static void *thread_main(void *arg){ tctx *t=(tctx*)arg; if(t->jitter&&(t->seed&3)==0){ cpu_set_t cs; CPU_ZERO(&cs); CPU_SET((int)((t->seed>>8)%16),&cs); pthread_setaffinity_np(pthread_self(),sizeof cs,&cs); }
   pthread_barrier_wait(&bar); run_work(t); return NULL; }
 
 /* child: returns exit status 0 ok / 5 digest mismatch / 6 worker failure; TSan adds 66 on its own */
 static int child(uint64_t caseseed,int pipefd){ vc_rng r; vc_rng_seed(&r,caseseed); int T=vc_chance(&r,1,4)?vc_range(&r,17,MAXT):vc_range(&r,2,16); static tctx tc[MAXT], sc[MAXT]; pthread_t th[MAXT]; int homog=vc_chance(&r,1,3); int hrole=vc_below(&r,6);
   for(int i=0;i<T;i++){ memset(&tc[i],0,sizeof tc[i]); tc[i].idx=i; tc[i].role=homog?hrole:(int)vc_below(&r,6); tc[i].seed=vc_next(&r); tc[i].jitter=1; }
+  { int np=0; for(int i=0;i+1<T;i++) if(vc_chance(&r,1,5)){ tc[i].role=6; tc[i+1].role=7; tc[i].pair=tc[i+1].pair=np; pthread_mutex_init(&mbox[np].m,NULL); pthread_cond_init(&mbox[np].c,NULL); mbox[np].ready=0; np++; i++; } }
   pthread_barrier_init(&bar,NULL,T); for(int i=0;i<T;i++) pthread_create(&th[i],NULL,thread_main,&tc[i]); for(int i=0;i<T;i++) pthread_join(th[i],NULL);
   /* serial reference: same workloads, one after the other, no jitter */
+  for(int i=0;i<MAXT;i++) mbox[i].ready=0;
   int bad=0; char msg[400]; msg[0]=0; long ops=0; for(int i=0;i<T;i++){ sc[i]=tc[i]; sc[i].jitter=0; run_work(&sc[i]); ops+=tc[i].ops; if(tc[i].failed&&!bad){ bad=6; snprintf(msg,sizeof msg,"thread %d role %d: %s",i,tc[i].role,tc[i].fail); } if(sc[i].digest!=tc[i].digest&&!bad){ bad=5; snprintf(msg,sizeof msg,"thread %d (role %d, %ld ops) produced digest %016llx concurrently, %016llx when run alone",i,tc[i].role,tc[i].ops,(unsigned long long)tc[i].digest,(unsigned long long)sc[i].digest); } }
   /* interleaving signature: thread order of the merged event sequence */
   uint64_t sig=7; { int pos[MAXT]; memset(pos,0,sizeof pos); for(;;){ int best=-1; for(int i=0;i<T;i++) if(pos[i]<tc[i].nev&&(best<0||tc[i].ev[pos[i]]<tc[best].ev[pos[best]])) best=i; if(best<0) break; sig=vc_hash64(sig,(uint64_t)best); pos[best]++; } }
@@ -76,7 +98,7 @@ static void mode_threads(void){
   if(pid==0){ close(pr[0]); dup2(fileno(ef),2); int rc=child(cs,pr[1]); _exit(rc); }
   close(pr[1]); char rbuf[700]; int rn=0; for(;;){ int k=(int)read(pr[0],rbuf+rn,sizeof rbuf-1-rn); if(k<=0) break; rn+=k; } rbuf[rn]=0; close(pr[0]);
   int st=0; waitpid(pid,&st,0); static char ebuf[60000]; int en=0; rewind(ef); en=(int)fread(ebuf,1,sizeof ebuf-1,ef); if(en<0) en=0; ebuf[en]=0; fclose(ef); int T=0,roles=0,bad=0; long ops=0; unsigned long long sig=0; char msg[400]; msg[0]=0; if(rn>0) sscanf(rbuf,"R %d %ld %llx %d %d %399[^\n]",&T,&ops,&sig,&roles,&bad,msg);
-  vc_count("processes",1); vc_count("threads",T); vc_count("api_operations",ops); if(sig) vc_sig(sig); for(int q=0;q<6;q++) if(roles&(1<<q)) vc_named("role-%d-run-concurrently",q);
+  vc_count("processes",1); vc_count("threads",T); vc_count("api_operations",ops); if(sig) vc_sig(sig); for(int q=0;q<8;q++) if(roles&(1<<q)) vc_named("role-%d-run-concurrently",q);
   int ex=WIFEXITED(st)?WEXITSTATUS(st):-WTERMSIG(st);
   if(strstr(ebuf,"ThreadSanitizer")){ /* name the report by its SUMMARY line(s) */ char key[160]="tsan:report"; char *s=strstr(ebuf,"SUMMARY: ThreadSanitizer: "); char sum[300]=""; if(s){ snprintf(sum,sizeof sum,"%.290s",s+26); char *nl=strchr(sum,'\n'); if(nl) *nl=0; char kind[60]="report", fn[80]=""; sscanf(sum,"%59[^(/] ",kind); char *in=strstr(sum," in "); if(in) sscanf(in+4,"%79s",fn); for(char *p=kind;*p;p++) if(*p==' ') *p='-'; while(kind[0]&&kind[strlen(kind)-1]=='-') kind[strlen(kind)-1]=0; snprintf(key,sizeof key,"tsan:%s@%s",kind,fn[0]?fn:"?"); }
     int nrep=0; for(char *p=ebuf;(p=strstr(p,"WARNING: ThreadSanitizer"));p++) nrep++; vc_viol(key,"%d ThreadSanitizer report(s) with %d threads; first: %s",nrep,T,sum); if(vc_verbose) fprintf(stderr,"%s\n",ebuf); }
